@@ -371,6 +371,30 @@ class StubsLib(StubsBase):
             "s_": NS("np.s_", {}),
             "matmul": NS("ufunc:matmul", {"nin": 2, "nout": 1}),
             "searchsorted": Stub(self.np_searchsorted, "np.searchsorted"),
+            "isclose": Stub(self.np_isclose, "np.isclose"),
+            "abs": Stub(lambda c, x: self.b_abs(c, x), "np.abs"),
+            "absolute": Stub(lambda c, x: self.b_abs(c, x), "np.absolute"),
+            "rint": Stub(lambda c, x: self.np_round(c, x), "np.rint"),
+            "real": Stub(lambda c, x: self.value_getattr(x, "real", c), "np.real"),
+            "imag": Stub(lambda c, x: self.value_getattr(x, "imag", c), "np.imag"),
+            "conj": Stub(lambda c, x: A.conj(c, x) if isinstance(x, SArr) else V.cconj(x), "np.conj"),
+            "conjugate": Stub(lambda c, x: A.conj(c, x) if isinstance(x, SArr) else V.cconj(x), "np.conjugate"),
+            "transpose": Stub(lambda c, x, axes=None: A.transpose(c, x, axes), "np.transpose"),
+            "swapaxes": Stub(lambda c, x, a, b: A.swapaxes(c, x, a, b), "np.swapaxes"),
+            "ones": Stub(lambda c, shape, dtype=DType("float64"): self._np_full(c, shape, 1, dtype), "np.ones"),
+            "full": Stub(lambda c, shape, val, dtype=None: self._np_full(c, shape, val, dtype), "np.full"),
+            "empty": Stub(lambda c, shape, dtype=DType("float64"): A.zeros(c, shape, self.to_dtype(dtype)), "np.empty"),
+            "zeros_like": Stub(lambda c, x, dtype=None: A.zeros(c, x.shape, self.to_dtype(dtype) if dtype is not None else x.dtype), "np.zeros_like"),
+            "ndim": Stub(lambda c, x: x.ndim if isinstance(x, SArr) else (x.val.ndim if isinstance(x, Qty) and isinstance(x.val, SArr) else 0), "np.ndim"),
+            "shape": Stub(lambda c, x: x.shape if isinstance(x, SArr) else (), "np.shape"),
+            "maximum": Stub(lambda c, a, b: self._np_minmax(c, a, b, True), "np.maximum"),
+            "minimum": Stub(lambda c, a, b: self._np_minmax(c, a, b, False), "np.minimum"),
+            "where": Stub(self._np_where, "np.where"),
+            "sign": Stub(lambda c, x: self._np_sign(c, x), "np.sign"),
+            "copy": Stub(lambda c, x: A.copy(c, x), "np.copy"),
+            "ascontiguousarray": Stub(lambda c, x, dtype=None: self.np_asarray(c, x, dtype), "np.ascontiguousarray"),
+            "moveaxis": Stub(lambda c, x, a, b: self._np_moveaxis(c, x, a, b), "np.moveaxis"),
+            "expand_dims": Stub(lambda c, x, axis: self.getitem(x, tuple([SSlice()] * (axis % (x.ndim + 1)) + [None]), c), "np.expand_dims"),
             "shares_memory": Stub(lambda c, a, b: bool(a.owner & b.owner), "np.shares_memory"),
         })
         attrs["s_"].is_index_exp = True
@@ -536,6 +560,50 @@ class StubsLib(StubsBase):
         if isinstance(v, SArr):
             return A.elementwise(ctx, count, [v], DType("int64"))
         return count(v)
+
+    def np_isclose(self, ctx, a, b, rtol=Fraction(1, 10 ** 5), atol=Fraction(1, 10 ** 8)):
+        ctx.note("stub:np.isclose=|a-b|<=atol+rtol*|b|")
+
+        def f(x, y):
+            d = V.sub(x, y)
+            ad = V.Ite(V.le(0, d), d, V.neg(d))
+            ay = V.Ite(V.le(0, y), y, V.neg(y))
+            return V.le(ad, V.add(atol, V.mul(rtol, ay)))
+        if isinstance(a, SArr) or isinstance(b, SArr):
+            return A.elementwise(ctx, f, [a, b], DType("bool"))
+        return V.simp(f(a, b))
+
+    def _np_full(self, ctx, shape, val, dtype):
+        if not isinstance(shape, tuple):
+            shape = (shape,)
+        dt = self.to_dtype(dtype) if dtype is not None else A.scalar_dtype(val)
+        cv = A.cast_scalar(val, dt)
+        return SArr(shape, lambda ix: cv, dt)
+
+    def _np_minmax(self, ctx, a, b, is_max):
+        f = (lambda x, y: V.vmax(x, y)) if is_max else (lambda x, y: V.vmin(x, y))
+        if isinstance(a, SArr) or isinstance(b, SArr):
+            return A.elementwise(ctx, f, [a, b], A.promote([a, b]))
+        return V.simp(f(a, b))
+
+    def _np_where(self, ctx, cond, a, b):
+        ops = [cond, a, b]
+        if not any(isinstance(o, SArr) for o in ops):
+            return V.Ite(cond, a, b)
+        return A.elementwise(ctx, lambda c_, x, y: V.Ite(c_, x, y), ops, A.promote([a, b]))
+
+    def _np_sign(self, ctx, x):
+        f = lambda v: V.Ite(V.lt(0, v), 1, V.Ite(V.lt(v, 0), -1, 0))
+        if isinstance(x, SArr):
+            return A.elementwise(ctx, f, [x], x.dtype)
+        return V.simp(f(x))
+
+    def _np_moveaxis(self, ctx, x, src, dst):
+        nd = x.ndim
+        src, dst = src % nd, dst % nd
+        order = [k for k in range(nd) if k != src]
+        order.insert(dst, src)
+        return A.transpose(ctx, x, order)
 
     def np_all(self, ctx, x):
         if isinstance(x, SArr):
